@@ -1139,3 +1139,98 @@ Proof.
   intros W K G. left. apply (rwalk_missing fs W (d ++ [n]) []); cbn [app]; [apply snoc_nonnil|exact G|].
   rewrite parent_snoc. exact K.
 Qed.
+
+(* ====================================================================================================== *)
+(* 10. summary: every backend operation preserves well-formedness and the side condition, and changes     *)
+(*     only what it names (FRAME): the projected attributes [pk] of other paths and the listings of other  *)
+(*     directories are untouched                                                                           *)
+(* ====================================================================================================== *)
+Section Summary.
+Variable f : fsmap.
+Hypothesis W : WF f.
+Hypothesis NL : nolinks f.
+Ltac unch := repeat (first [exact W | exact NL | split | (intros; reflexivity) | discriminate]).
+
+(* read-only operations: be_stat, be_readlink, be_open, be_readdir, be_readat return no tree at all *)
+
+Theorem be_mkdir_frame p perm t : nodd p -> let f' := fst (be_mkdir f p perm t) in
+  WF f' /\ nolinks f' /\ (forall q, q <> p -> pk f' q = pk f q) /\ (forall d, d <> parent p -> listing f' d = listing f d) /\
+  (forall e, snd (be_mkdir f p perm t) = Err e -> f' = f).
+Proof.
+  intros ND. cbv zeta. destruct (be_mkdir_spec f W NL p perm t ND) as [e S]. rewrite S.
+  destruct (creatable f p) eqn:C; cbn [fst snd].
+  - pose proof (creatable_nonroot f W p C) as NE. split; [apply WF_add; assumption|].
+    split; [apply nolinks_add; [assumption|discriminate]|]. split; [intros q Q; apply pk_add; assumption|].
+    split; [intros d D; apply listing_add; exact D|discriminate].
+  - unch.
+Qed.
+Theorem be_create_frame p t : nodd p -> let f' := fst (be_create f p t) in
+  WF f' /\ nolinks f' /\ (forall q, q <> p -> pk f' q = pk f q) /\ (forall d, d <> parent p -> listing f' d = listing f d) /\
+  (forall e, snd (be_create f p t) = Err e -> f' = f).
+Proof.
+  intros ND. cbv zeta. destruct (be_create_spec f W NL p t ND) as [e S]. rewrite S.
+  destruct (fs_get f p) as [o|] eqn:G.
+  - destruct (o_kind o); cbn [fst snd]; try (solve [unch]).
+    split; [apply WF_upd; [intros x; reflexivity|exact W]|]. split; [apply nolinks_upd; [intros x; reflexivity|exact NL]|].
+    split; [|split; [intros d _; apply listing_upd|discriminate]].
+    intros q Q. unfold pk. rewrite fs_get_upd. apply peqb_neq in Q. rewrite Q. reflexivity.
+  - destruct (kd f (parent p)) eqn:K; cbn [fst snd]; [|unch].
+    assert (C : creatable f p = true) by (unfold creatable; rewrite G; exact K).
+    pose proof (creatable_nonroot f W p C) as NE. split; [apply WF_add; assumption|].
+    split; [apply nolinks_add; [assumption|discriminate]|]. split; [intros q Q; apply pk_add; assumption|].
+    split; [intros d D; apply listing_add; exact D|discriminate].
+Qed.
+Theorem be_remove_frame p t : nodd p -> let f' := fst (be_remove f p t) in
+  WF f' /\ nolinks f' /\ (forall q, q <> p -> pk f' q = pk f q) /\ (forall d, d <> parent p -> listing f' d = listing f d) /\
+  (forall e, snd (be_remove f p t) = Err e -> f' = f).
+Proof.
+  intros ND. cbv zeta. destruct (be_remove_spec f W NL p t ND) as [e S]. rewrite S.
+  destruct (removable f p) eqn:R; cbn [fst snd]; [|unch].
+  destruct (removable_spec f W p R) as (NE & _ & NC). split; [apply WF_del; assumption|]. split; [apply nolinks_del; exact NL|].
+  split; [intros q Q; apply pk_del; assumption|]. split; [intros d D; apply listing_del; exact D|discriminate].
+Qed.
+(* rename: everything outside the two subtrees keeps its attributes; every directory outside them other than the two
+   parents keeps its listing *)
+Theorem be_rename_frame oc nc t : nodd oc -> nodd nc -> let f' := fst (be_rename f oc nc t) in
+  WF f' /\ nolinks f' /\
+  (forall q, is_prefix oc q = false -> is_prefix nc q = false -> pk f' q = pk f q) /\
+  (forall d, d <> parent oc -> d <> parent nc -> is_prefix oc d = false -> is_prefix nc d = false -> listing f' d = listing f d) /\
+  (forall e, snd (be_rename f oc nc t) = Err e -> f' = f).
+Proof.
+  intros N1 N2. cbv zeta. destruct (be_rename_spec f oc nc t W NL N1 N2) as [e S]. rewrite S.
+  destruct (rename_ok f oc nc) eqn:OK; cbn [fst snd]; [|unch].
+  peq oc nc; [unch|].
+  destruct (rename_ok_facts f W oc nc OK E) as (NEo & NEn & _).
+  split; [apply WF_renamed; assumption|]. split; [apply nolinks_renamed; assumption|].
+  split; [intros q Q1 Q2; apply pk_renamed; assumption|]. split; [|discriminate].
+  intros d D1 D2 P1 P2. apply listing_renamed; assumption.
+Qed.
+(* chmod / chown / lchown / chtimes: one object's metadata; keys, kinds and all listings unchanged *)
+Theorem be_meta_frame p fl g : nodd p -> keeps_kind g -> let f' := fst (be_meta f p fl g) in
+  WF f' /\ nolinks f' /\ (forall q, q <> p -> pk f' q = pk f q) /\ (forall d, listing f' d = listing f d) /\
+  (forall q, kd f' q = kd f q) /\ (forall e, snd (be_meta f p fl g) = Err e -> f' = f).
+Proof.
+  intros ND K. cbv zeta. destruct (be_meta_spec f W NL p fl g ND) as [e S]. rewrite S.
+  destruct (fs_get f p) as [o|]; cbn [fst snd]; [|unch].
+  split; [apply WF_upd; assumption|]. split; [apply nolinks_upd; assumption|].
+  split; [intros q Q; unfold pk; rewrite fs_get_upd; apply peqb_neq in Q; rewrite Q; reflexivity|].
+  split; [intros d; apply listing_upd|]. split; [intros q; apply kd_upd; exact K|discriminate].
+Qed.
+Theorem be_truncate_frame p sz t : nodd p -> let f' := fst (be_truncate f p sz t) in
+  WF f' /\ nolinks f' /\ (forall q, q <> p -> pk f' q = pk f q) /\ (forall d, listing f' d = listing f d) /\
+  (forall q, kd f' q = kd f q) /\ (forall e, snd (be_truncate f p sz t) = Err e -> f' = f).
+Proof.
+  intros ND. cbv zeta. destruct (be_truncate_spec f W NL p sz t ND) as [e S]. rewrite S.
+  destruct (fs_get f p) as [o|]; cbn [fst snd]; [|unch].
+  assert (X : forall g, keeps_kind g ->
+    WF (fs_upd f p g) /\ nolinks (fs_upd f p g) /\ (forall q, q <> p -> pk (fs_upd f p g) q = pk f q) /\
+    (forall d, listing (fs_upd f p g) d = listing f d) /\ (forall q, kd (fs_upd f p g) q = kd f q)).
+  { intros g K. split; [apply WF_upd; assumption|]. split; [apply nolinks_upd; assumption|].
+    split; [intros q Q; unfold pk; rewrite fs_get_upd; apply peqb_neq in Q; rewrite Q; reflexivity|].
+    split; [intros d; apply listing_upd|intros q; apply kd_upd; exact K]. }
+  destruct (o_kind o); cbn [fst snd]; try (solve [unch]);
+    (destruct (sz <? 0)%Z; cbn [fst snd]; [unch|]);
+    (destruct (X (fun o0 => set_data o0 (Z.to_N sz) (sd_trunc (o_data o0) (Z.to_N sz)) t)) as (A & B & C & D & E0); [intros x; reflexivity|]);
+    (split; [exact A|]; split; [exact B|]; split; [exact C|]; split; [exact D|]; split; [exact E0|discriminate]).
+Qed.
+End Summary.
